@@ -19,6 +19,7 @@ CONSTANTS
   Switch <- SwitchQ
   Rewidth <- RewidthQ
   Charsets <- CharsQ
+  MCSecPre <- NoSecPre
   Depth = 4
 VIEW HView
 PROPERTY PFrameShape
